@@ -333,6 +333,37 @@ func init() {
 	}
 	// ---- errors
 	I["errors.Is"] = func(ex *Exec, th *Thread, fn *ssa.Function, a []Value) (Value, bool) {
+		// an error type with its own Is method (net's timeout error answers true for context.DeadlineExceeded):
+		// identity first, then the method decides (tail call); such a type with an Unwrap method too is unsupported
+		cur := a[0]
+		for depth := 0; depth < 20; depth++ {
+			e, ok := cur.(ifaceV)
+			if !ok || e.t == nil || e.t == ex.eng.opaqueT {
+				break
+			}
+			if eq := ex.eqVal(cur, a[1]); eq.IsConst() && eq.c == 1 {
+				return ex.tc.Bool(true), false
+			}
+			if types.Identical(e.t, ex.eng.wrapErrorPtrT) {
+				p := e.v.(Ptr)
+				cur = (*p.slot).(structV)[1]
+				continue
+			}
+			ms := ex.eng.prog.MethodSets.MethodSet(e.t)
+			if sel := ms.Lookup(nil, "Is"); sel != nil {
+				m := ex.eng.prog.MethodValue(sel)
+				if m == nil || m.Blocks == nil || len(m.Params) != 2 {
+					break
+				}
+				if ms.Lookup(nil, "Unwrap") != nil {
+					panic(unsupported("errors.Is on an error type with both Is and Unwrap methods"))
+				}
+				ex.stubsHit["intrinsic:errors.Is=>"+m.String()] = true
+				ex.pushFrame(th, m, []Value{e.v, a[1]}, nil, ex.curSite)
+				return nil, false
+			}
+			break
+		}
 		return ex.tc.Bool(ex.errorsIs(a[0], a[1], 0)), false
 	}
 	// ---- time
